@@ -322,7 +322,12 @@ func genCase(port string) func(t *rapid.T) Case {
 				out = append(out[:pos:pos], append([]byte{b}, out[pos:]...)...)
 			}
 		}
-		c.Chunks = live.Chunking(t, out, 60000)
+		if port == "testdrv" {
+			// that driver's clock starts at the wall clock: its time stamps wrap around earlier
+			c.Chunks = live.Chunking(t, out, 60000)
+		} else {
+			c.Chunks = live.ChunkingToLastStamp(t, out, 60000)
+		}
 		// stated domain: every tick delta fits the format's maximum 0x0FFFFFFF. Bound the whole
 		// stream's duration accordingly (constructive: scale the inter-arrival times down).
 		budget := float64(0x0FFFFFFF) * 60000 / (float64(c.Res) * c.BPM) * 0.99
